@@ -117,6 +117,16 @@ def gen_case(rng, i):
             Rr = gen.rlist_raw(rng, vs, 1, 2)
         c["R"] = Rr
         c["behs"] = boundary_behaviours(rng, L, vs)[:4]
+        if rng.random() < 0.4:
+            # SEPARATED: the planted point of the left list lies beyond one right-hand row (whose coefficients are no unit vector and whose
+            # bound is rarely zero) -- the left list does not refine the right one, and the planted point says so
+            co, _ = gen.rterm_raw(rng, vs, nmax=min(3, nv))
+            k = rng.choice([2, 3, 4])
+            co = {v: a * k for v, a in co.items()} if rng.random() < 0.6 else co
+            lhs = sum(a * pt[v] for v, a in co.items())
+            far = (co, lhs - rng.choice([1, 2, 4]))
+            c["R"] = ([far] + Rr[:1]) if rng.random() < 0.5 else [far]
+            c["behs"] = [{v: float(pt[v]) for v in vs}] + c["behs"][:3]
     return c
 
 
@@ -134,13 +144,16 @@ def gen_cases(tier):
 def run_case(case):
     evs = []
     if case["kind"] == "member":
-        evs = [lpev.ev_contains(case["L"], b) for b in case["behs"]]
+        # on every other case ONE list object answers all the queries of the case, one after the other (a query leaves the list as it was)
+        shared = gen.mk_list(case["L"]) if case["id"] % 2 == 0 else None
+        evs = [lpev.ev_contains(case["L"], b, shared) for b in case["behs"]]
     elif case["kind"] == "empty":
         evs = [lpev.ev_empty(case["L"])]
         if case.get("twin"):
             evs.append(lpev.ev_empty(case["twin"]))
     else:
-        evs = [lpev.ev_consistency(case["L"], case["R"], b) for b in case["behs"] if set(b) >= {v for co, _ in case["L"] + case["R"] for v in co}]
+        objs = (gen.mk_list(case["L"]), gen.mk_list(case["R"])) if case["id"] % 8 == 4 else None
+        evs = [lpev.ev_consistency(case["L"], case["R"], b, objs) for b in case["behs"] if set(b) >= {v for co, _ in case["L"] + case["R"] for v in co}]
     if case.get("only_event"):
         evs = evs[case["only_event"] - 1: case["only_event"]]
         case = dict(case)
